@@ -8,7 +8,23 @@ COMMON_NOTE = ("Trusted: Coq 8.16.1 kernel, extraction (ExtrOcamlBasic only), oc
                "tools/*.py generators/oracles/translators. The theorems are about the hand-written model; the "
                "correspondence stream ties it to /repo on the generated inputs only. ")
 
+TTY_NOTE = COMMON_NOTE + ("Interactive properties drive the real Unix back end through a pseudo-terminal (tools/ptydrive.py): the "
+                          "delivery schedule (chunks, sent at observed quiescence) is part of the input; observation is the public "
+                          "Event::Any handler. ")
+
 CLAIMED = {
+    "C01": dict(
+        text="Theorems over the model of the whole interactive read (decoder, keymap, execute): the README binding tables hold row "
+             "by row for every editor state (99 rows), numeric arguments are handed to the command and a negative one runs the "
+             "opposite command (53 rows), every standard byte encoding of a documented key decodes to it consuming exactly its "
+             "bytes (73 encodings, any later input, either timeout setting), a typed character is inserted exactly once at the "
+             "cursor for every character/text/cursor/configuration, and no Move command changes the text for every movement and "
+             "count. PARTIAL: the composition over arbitrary key sequences is the model function read_line itself, tied to /repo by "
+             "the keys stream (text, cursor, mode, argument before every key, result, every byte written) and judged on the "
+             "implementation by a spec oracle for the commands with a crisp documented meaning; vi `.`, transpose, case change, "
+             "indent have no independent statement.",
+        note=TTY_NOTE + "Known finding K_word_count (C04) limits the count convention for word commands.",
+        technique="Coq proof: finite table sweeps by kernel computation for arbitrary surrounding state; structural proofs over the editor monad (keeps_buf, insert spec); extracted-model differential check through a pty + documented-meaning oracle"),
     "C03": dict(
         text="Theorems over the model of every public LineBuffer method (same byte arithmetic, explicit Panic): for EVERY "
              "operation, Unicode data, segmentation, buffer and parameters the notifications replayed on the old text give "
